@@ -156,6 +156,18 @@ def history_jobs(label, leaves, E, allow_modes=("default",)):
             for n in ([0] if s == 1 else []) + [m - s + 1]:
                 for mode in allow_modes:
                     jobs.append({"kind": "history", "label": label, "claims": claims, "past": "auto", "future": "auto", "n": n, "mode": mode})
+    # ranges with a hole: the missing versions' entries replaced by copies of the nearest newer present one
+    present = sorted(fresh)
+    for m in present:
+        for s in [v for v in present if v < m]:
+            if all(v in fresh for v in range(s, m + 1)):
+                continue
+            claims = []
+            for v in range(m, s - 1, -1):
+                src = v if v in fresh else min(x for x in present if x > v)
+                claims.append([fresh[src][3], src, fresh[src][4]])
+            for n in ([0] if s == 1 else []) + [m - s + 1]:
+                jobs.append({"kind": "history", "label": label, "claims": claims, "past": "auto", "future": "auto", "n": n, "mode": "default", "tag": "hole_hidden_by_duplicate"})
     return jobs
 
 def late_stale_trees(chk):
@@ -256,8 +268,11 @@ def c08():
         if chk.tier == "quick":
             combos = [c for i, c in enumerate(combos) if i % 2 == 0 or len(c) <= 1]
         for ex in combos:
-            for E in sorted({max([n] + list(ex)), Emax}):
+            for (E, with_stale) in [(e0, ws) for e0 in sorted({max([n] + list(ex)), Emax}) for ws in ((False, True) if ex else (False,))]:
+                # the extra versions alone, or each with the stale marker of its predecessor planted next to it
                 leaves = honest_leaves("a", n) + [["a", "F", v, "x", E] for v in ex]
+                if with_stale:
+                    leaves += [["a", "S", v - 1, "-", E] for v in ex if not any(l[1] == "S" and l[2] == v - 1 for l in leaves)]
                 jobs = history_jobs("a", leaves, E)
                 fresh = sorted({lf[2] for lf in leaves if lf[1] == "F"})
                 for m in fresh:
